@@ -75,6 +75,13 @@ def run(R):
                     ok, p = g.dominated_by(r, sets, skip_labels=())
                     c.check(ok, f, r.ast, 'self.flag_eof = True on every path before this raise EOF',
                             witness='path: ' + g.describe_path(p) if p else None)
+    with R.clause('D9', 'PROP', floor=2, desc='spawn.flag_eof is stored in / read from the ptyprocess object') as c:
+        gt = repo.func('pty_spawn:spawn.flag_eof')
+        rr = returns(gt)
+        c.check(len(rr) == 1 and norm(rr[0].ast.value) == 'self.ptyproc.flag_eof', gt, rr[0].ast if rr else None, 'getter returns ptyproc.flag_eof', kind='ast', tag='flag-get')
+        stt = repo.func('pty_spawn:spawn.flag_eof.setter')
+        asg = [n for n in iter_nodes(stt.node) if isinstance(n, ast.Assign) and norm(n.targets[0]) == 'self.ptyproc.flag_eof' and is_name(n.value, stt.params[1])]
+        c.check(len(asg) == 1, stt, asg[0] if asg else stt.node, 'setter stores the value in ptyproc.flag_eof (the liveness check and later reads depend on it)', kind='ast', tag='flag-set')
     with R.clause('D8', 'TAB', floor=3, desc='no-data outcomes of every transport surface as TIMEOUT, never as another error') as c:
         from .c05 import check_nodata
         check_nodata(c, repo)
@@ -416,6 +423,7 @@ MUTANTS = [
     ('existing-none-flipped', 'expect', "            idx = self.existing_data()\n            if idx is not None:\n                return idx\n            while True:", "            idx = self.existing_data()\n            if idx:\n                return idx\n            while True:", 'D3'),
     ('newdata-truthy', 'expect', "                # Keep reading until exception or return.\n                if idx is not None:\n                    return idx", "                # Keep reading until exception or return.\n                if idx:\n                    return idx", 'D1'),
     ('errored-keeps-after', 'expect', "        spawn.before = spawn._before.getvalue()\n        spawn.after = None\n        spawn.match = None", "        spawn.before = spawn._before.getvalue()\n        spawn.match = None", 'D1'),
+    ('flag-eof-setter-noop', 'pty_spawn', "    def flag_eof(self, value):\n        self.ptyproc.flag_eof = value", "    def flag_eof(self, value):\n        self._flag_eof = value", 'D9'),
     ('eof-no-clear-on-raise', 'expect', "        spawn.before = spawn._before.getvalue()\n        spawn._buffer = spawn.buffer_type()\n        spawn._before = spawn.buffer_type()\n        spawn.after = EOF\n        index = self.searcher.eof_index\n        if index >= 0:\n",
      "        spawn.before = spawn._before.getvalue()\n        spawn.after = EOF\n        index = self.searcher.eof_index\n        if index >= 0:\n            spawn._buffer = spawn.buffer_type()\n            spawn._before = spawn.buffer_type()\n", 'D2'),
 ]
